@@ -242,7 +242,13 @@ theorem c03_no_backwards {t u : Tid} {x y : Ver} {tr1 tr2 tr3 : List Action} {s 
   have hy := (readRoot_inv hs3).1
   omega
 
-/-! ## the two-step begin_read errs on the safe side -/
+/-! ## the two-step begin_read errs on the safe side - for commits that free by the oldest pin
+
+Finding F10 (DESIGN 0.3): the unrepaired code read the root after the registration, and the
+non-durable commit path releases unpersisted pages by a policy that looks only at readers pinned on
+pending non-durable commits - NOT the `policy` hypothesis of `c03_pin_protects_root` below. A reader
+pinned on a durable id whose root was a later non-durable commit lost its pages. The repair makes
+the two actions adjacent (`c03_atomic_begin_read`: root = pin). -/
 
 /-- `begin_read` first registers (pins the then-latest id) and only afterwards reads the latest
 root; a commit may be published in between. The pin is therefore never newer than the root:
@@ -265,6 +271,26 @@ theorem c03_reader_root_ge_registered :
     obtain ⟨m3, hs3, _⟩ := exec_cons.mp h5
     have hr := (readRoot_inv hs3).1
     omega
+
+/-- `begin_read` as repaired (finding F10): the root is read in the same critical section as the
+registration, i.e. the two actions of a reader are adjacent in the execution. Then the root is
+exactly the pinned version - the reader's registration protects precisely what it reads. -/
+theorem c03_atomic_begin_read {t : Tid} {p r : Ver} {tr1 tr3 : List Action} {s : Sys}
+    (he : Exec init (tr1 ++ ⟨t, .register p⟩ :: ⟨t, .readRoot r⟩ :: tr3) s) : r = p := by
+  obtain ⟨m1, h1, h2⟩ := exec_append.mp he
+  obtain ⟨m1', hs1, h3⟩ := exec_cons.mp h2
+  obtain ⟨m2, hs2, _⟩ := exec_cons.mp h3
+  have hp := (register_inv hs1).1
+  have hr := (readRoot_inv hs2).1
+  have hlog : m1'.log = m1.log := by
+    unfold Step step at hs1
+    split at hs1 <;> simp_all
+    all_goals (try (split at hs1 <;> simp_all))
+    all_goals (try (cases hs1; rfl))
+  rw [hr, hp, hlog]
+
+/-- the hypothesis is satisfiable: a reader of the initial state registers and reads its root -/
+example : (exec init ([] ++ ⟨1, .register 0⟩ :: ⟨1, .readRoot 0⟩ :: [])).isSome = true := by decide
 
 /-- the ids pinned in a state: those of the registered readers -/
 def pinned (s : Sys) (p : Ver) : Prop :=
@@ -412,19 +438,21 @@ theorem c03_monitor_sound {evs : List Event} (h : accept evs = true) :
 
 set_option maxRecDepth 100000
 
-/-- `sch begin first=Read second=WriteImm park=begin_read.registered#1` of /verif/.cache/c03.ops
-(seed 1), verbatim: T1 is parked between `register` and `readRoot` while T2 commits version 3
-durably; T1 then reads root 3 although it pinned 2 -/
-def exAccepted : List Event :=
+/-- `sch begin first=Read second=WriteImm park=begin_read.registered#1` of /verif/.cache/C03_sched.ops
+(seed 1): T1 is parked at `begin_read.registered` - it has its pin and, since the repair of F10,
+its root - while T2 commits version 3 durably; T1 then reads version 2 -/
+def exParked (seen : Ver) : List Event :=
   [.readBegin 1 2, .at 1 .beginReadRegistered,
    .writeBegin 2, .writeStarted 2 3, .at 2 .setDirty, .at 2 .setDirty, .at 2 .setDirty,
    .at 2 .durableHorizon, .at 2 .durableFreed, .at 2 .durableBeforeCommit,
    .at 2 .memBetweenHeaders, .at 2 .memBeforeSwap, .at 2 .durableAfterCommit,
    .at 2 .durableBeforeEpilogue, .at 2 .epilogueHorizon, .at 2 .writeDrop,
    .writeEnd 2 (.committed 3), .ctlRelease false,
-   .readEnd 1 3 3 3 true, .at 1 .guardDropRead]
+   .readEnd 1 seen seen 3 true, .at 1 .guardDropRead]
 
-example : accept exAccepted = true := by decide
+example : accept (exParked 2) = true := by decide
+/-- the stream of the unrepaired code (finding F10: pinned 2, read root 3) is no longer a trace -/
+example : accept (exParked 3) = false := by decide
 
 /-- `sch begin first=WriteImm second=Read park=mem.commit.before_swap#1` of the same file: the
 writer is parked inside the publish window; the reader sees 2 -/
